@@ -282,6 +282,61 @@ def bloom_stream(ck, cases):
     return verdicts, broken
 
 
+def tok_stream(ck, bcases, splitbytes):
+    """tokenizer tie: TokModel.tokens / TokModel.finder against the real SimpleTokenizer / SimpleTokenFinder on the strings
+    of the bloom cases; the writer inserts the byte-level tokens (always for ASCII values)."""
+    vals, pairs = {}, {}
+    writer = {"ascii_bytewise": 0, "ascii_other": 0, "nonascii_bytewise": 0, "nonascii_other": 0}
+    for t in bcases:
+        tk = t.get("tok")
+        if not tk:
+            continue
+        for v in tk["vals"]:
+            if not v["realok"]:
+                ck.broken.append("tokenizer tie: the real SimpleTokenizer does not yield the hashes of the maximal runs of non-split bytes "
+                                 "(TokModel.tokens) for the value %s" % v["v"])
+                return None
+            writer[("ascii_" if v["ascii"] else "nonascii_") + ("bytewise" if v["writerbytewise"] else "other")] += 1
+            vals[json.dumps(v["v"])] = v["toks"]
+        for q in tk["pairs"]:
+            pairs[json.dumps([q["p"], q["v"]])] = q["m"]
+    if writer["ascii_other"]:
+        ck.broken.append("tokenizer tie: for an ASCII value the filter data of BloomFilterWriter.GenBloomFilterData differs from the data of "
+                         "the byte-level tokens (TokModel.tokens): the premise-free theorem C20_bloom_skip_sound_ascii no longer describes the writer")
+    if not vals or not splitbytes:
+        return {"values": 0, "pairs": 0, "writer": writer}
+    nl = lambda xs: "(" + coq_list(["%d" % x for x in xs]) + " : list N)"
+    # quick tier: a deterministic sample (non-ASCII strings and matching pairs first), thorough: everything
+    capv, capp = (500, 900) if ck.tier == "quick" else (10 ** 9, 10 ** 9)
+    def mix(items, isascii, cap):
+        a = sorted([kv for kv in items if isascii(kv)], key=lambda kv: kv[0])
+        b = sorted([kv for kv in items if not isascii(kv)], key=lambda kv: kv[0])
+        b = b[:cap // 2]
+        return b + a[:cap - len(b)]
+    vl = mix(vals.items(), lambda kv: all(x < 128 for x in json.loads(kv[0])), capv)
+    pl = mix([kv for kv in pairs.items() if kv[1]], lambda kv: all(x < 128 for x in json.loads(kv[0])[1]), capp * 2 // 3)
+    pl += mix([kv for kv in pairs.items() if not kv[1]], lambda kv: all(x < 128 for x in json.loads(kv[0])[1]), capp - len(pl))
+    txt = ("From Coq Require Import List Bool Arith NArith. From OG Require Import C20.Corr.\nImport ListNotations.\nOpen Scope N_scope.\n"
+           "Definition R := Eval vm_compute in tok_results %s\n %s\n %s.\nPrint R.\n") % (
+        nl(splitbytes),
+        "(" + coq_list(["(%s, (%s : list (list N)))" % (nl(json.loads(k)), coq_list([nl(tk_) for tk_ in v])) for k, v in vl]) + " : list (list N * list (list N)))",
+        "(" + coq_list(["(%s, %s, %s)" % (nl(json.loads(k)[0]), nl(json.loads(k)[1]), coq_bool(v)) for k, v in pl]) + " : list (list N * list N * bool))")
+    (rc, o), = ck.coq_eval_many([("tok0", txt)], timeout=600)
+    m = re.search(r"R\s*=\s*\((.*?)\)\s*:\s*list nat \* list nat", o, re.S) if rc == 0 else None
+    if not m:
+        ck.broken.append("tokenizer tie: model evaluation failed: %s" % o[-300:])
+        return None
+    a, b = m.group(1).split("],")[0] + "]", m.group(1).split("],")[1]
+    bad_v = ast.literal_eval(a.strip().replace(";", ","))
+    bad_p = ast.literal_eval(b.strip().replace(";", ","))
+    if bad_v:
+        ck.broken.append("correspondence C20 tokenizer: TokModel.tokens differs from the real SimpleTokenizer's tokens for the value bytes %s" % vl[bad_v[0]][0])
+    if bad_p:
+        ck.broken.append("correspondence C20 tokenizer: TokModel.finder differs from the real SimpleTokenFinder on (phrase, value) = %s (real answer %s)" % (pl[bad_p[0]][0], pl[bad_p[0]][1]))
+    return {"values": len(vl), "pairs": len(pl), "pairs_matching": sum(1 for _, v in pl if v), "writer": writer,
+            "ascii_values": sum(1 for k, _ in vl if all(x < 128 for x in json.loads(k)))}
+
+
 def _coq_atoms(tr):
     if tr[0] == "atom":
         a = tr[1]
@@ -624,6 +679,7 @@ def main(ck):
         bcases += cs
         m = re.search(r'^\{"skprobe":.*$', out, re.M)
         if m:
+            ck.c20_splitbytes = json.loads(m.group(0)).get("splitbytes")
             pr = json.loads(m.group(0))["skprobe"]
             ck.cov["skip_index_probe"] = pr
             # CHECKED obligation "min-max and set skip indexes cannot prune today": the check turns red as soon as one of these
@@ -653,6 +709,11 @@ def main(ck):
         t = bbroken[0][1]
         ck.nofail_detail = {"kind": "correspondence", "explanation": bbroken[0][0], "in": t["in"] if t else None,
                             "implementation": {k: t[k] for k in ("kept", "ranges", "schema", "atoms")} if t else None}
+    import time as _t
+    _t0 = _t.time()
+    tokinfo = tok_stream(ck, bcases, getattr(ck, "c20_splitbytes", None)) if bcases else None
+    ck.log("tokenizer tie: %s (%.1fs)" % ({k: v for k, v in (tokinfo or {}).items() if k != "writer"}, _t.time() - _t0))
+    ck.cov["tokenizer_tie"] = tokinfo
     ck.cov["bloom"] = {"evaluations": len(bcases), "with_reader": sum(1 for t in bcases if t["schema"]),
                        "distinct_nontrivial": len(set(json.dumps(t["in"], sort_keys=True) for t in bcases if t["nontrivial"])),
                        "with_nulls": sum(1 for t in bcases if any(v is None for v in t["in"]["content"])),
